@@ -146,7 +146,7 @@ func genCMEmph(tier string, rng *RNG, emit func(Case)) {
 			}
 		}
 	}
-	// fixed inputs: the seeded change's witness (cmark issue 383), and the known deviation G1 (so that every run reports it)
+	// fixed inputs: the seeded change's witness (cmark issue 383), and the repaired deviation G1 (regression inputs inside the reference's alphabet)
 	for _, f := range []string{"*a**b**c*y", "_a__b__c_ y", "*a\\  \n\\*", "*\\  \n\\*", "_a\\  \n\\_."} {
 		doc([]byte(f))
 	}
@@ -240,8 +240,9 @@ func b2i(b bool) int {
 // cmemphFixed: inputs of the deviation G1 with the HTML derived BY HAND from CommonMark 0.31.2 (2.4: any ASCII punctuation
 // character may be backslash-escaped and then has no Markdown meaning - example 14; 6.7: a line ending preceded by two or
 // more spaces is a hard line break, the backslash before those spaces is followed by a space and therefore literal).
-// Three of them are outside the reference's alphabet (code span, link, raw HTML). Re-checked on every run: while the
-// deviation exists they fail under the clause of the finding; after a repair they are regression cases.
+// Three of them are outside the reference's alphabet (code span, link, raw HTML). Re-checked on every run. The deviation
+// was repaired in /repo (KNOWN_FINDINGS `fixed:` 24c9f23: `escaped = false` at the top of parseBlock's line loop):
+// they are regression cases now, a failure is a VIOLATION under the clause of the former finding.
 var cmemphFixed = [][2]string{
 	{"*a\\  \n\\*", "<p>*a\\<br />\n*</p>\n"},
 	{"a\\  \n\\`b`", "<p>a\\<br />\n`b`</p>\n"},
@@ -311,16 +312,15 @@ func implCMEmph(c Case) ImplResult {
 	res.Key = cmemphKey(src, got)
 	if !bytes.Equal(got, want) {
 		clause := "emphasis-differs"
-		// Attribution of the one known deviation (KNOWN_FINDINGS, notes/status_C02.md round 3, G1): a line that ends in an
-		// unescaped backslash + exactly two spaces leaves parseBlock's `escaped` flag set for the first character of the next
-		// line, so a backslash escape there is not recognised. Respelling the hard line break with THREE spaces (6.7: "two or
+		// Attribution of the REPAIRED deviation G1 (KNOWN_FINDINGS `fixed:` 24c9f23, notes/status_C02.md round 3): a line that
+		// ends in an unescaped backslash + exactly two spaces left parseBlock's `escaped` flag set for the first character of the
+		// next line, so a backslash escape there was not recognised. Respelling the hard line break with THREE spaces (6.7: "two or
 		// more spaces"; same prescribed HTML - the reference is asked) avoids it: if goldmark then renders as prescribed, the
-		// difference is that deviation. The line compared with the model is then the model's (no broken correspondence too).
+		// difference is that defect come back. It only names the clause: the case is a VIOLATION and a disagreement like any other.
 		if c.Op == "doc" && cmemphBsBreak.Match(src) {
 			alt := cmemphBsBreak.ReplaceAll(src, []byte("$1\\   \n"))
 			if a, ok := cmemphAnswer("cmspec emph " + hx(alt)); ok && a == ans && bytes.Equal(cmspecConvert(alt), want) {
 				clause = "escape-after-backslash-spaces-break-differs"
-				res.Out = ans
 			}
 		}
 		if f := os.Getenv("CMEMPH_DUMP"); f != "" { // debugging aid: every difference, not only the kept samples
